@@ -4,7 +4,7 @@
    Statements only; proofs are in Proofs/NormRound.v and Proofs/Ops.v. *)
 From Coq Require Import ZArith Reals.
 From Flocq Require Import Core.
-From MP Require Import Algo.Base Algo.Libmpf Spec.Mpf Spec.Round Proofs.NormRound Proofs.Ops.
+From MP Require Import Algo.Base Algo.Libmpf Spec.Mpf Spec.Round Proofs.NormRound Proofs.Ops Proofs.Sticky Proofs.DivRound Proofs.SqrtRound Proofs.AddRound.
 Open Scope Z_scope.
 
 (* the rounding step every operation ends in: for every sign, mantissa of any length, exponent,
@@ -58,6 +58,49 @@ Print Assumptions C02_mul_round.
 Theorem C02_mul_exact : forall s t r, fincanon s -> fincanon t ->
   rv (python_mpf_mul s t 0 r) = (rv s * rv t)%R.
 Proof. exact python_mpf_mul_exact. Qed.
+
+(* addition and subtraction of any two finite values: correctly rounded in all five modes, for mantissas of any
+   length and exponents arbitrarily far apart (this includes the far-apart-exponent perturbation shortcut), and exact
+   with prec = 0 *)
+Theorem C02_add_round : forall s t prec r, fincanon s -> fincanon t -> 0 < prec ->
+  rv (mpf_add s t prec r) = RND r prec (rv s + rv t).
+Proof. exact mpf_add_round. Qed.
+Print Assumptions C02_add_round.
+
+Theorem C02_sub_round : forall s t prec r, fincanon s -> fincanon t -> 0 < prec ->
+  rv (mpf_sub s t prec r) = RND r prec (rv s - rv t).
+Proof. exact mpf_sub_round. Qed.
+
+Theorem C02_add_exact : forall s t r, fincanon s -> fincanon t -> rv (mpf_add s t 0 r) = (rv s + rv t)%R.
+Proof. exact mpf_add_exact. Qed.
+Theorem C02_sub_exact : forall s t r, fincanon s -> fincanon t -> rv (mpf_sub s t 0 r) = (rv s - rv t)%R.
+Proof. exact mpf_sub_exact. Qed.
+
+(* the rounding trick shared by division, square root and the addition shortcut *)
+Theorem C02_sticky : forall rm p sign N k theta,
+  0 < p -> (sign = 0 \/ sign = 1) -> 0 < N -> p + 1 <= bitcount N -> (0 < theta < 1)%R ->
+  RND rm p (sgn sign * ((IZR N + theta) * bpow radix2 k)) = RND rm p (sval sign (2 * N + 1) (k - 1)).
+Proof. exact RND_sticky. Qed.
+
+(* division: correctly rounded quotient for every finite dividend and nonzero divisor; x/0 raises *)
+Theorem C02_div_round : forall s t prec r, fincanon s -> regular t -> 0 < prec ->
+  exists y, mpf_div s t prec r = Ok y /\ rv y = RND r prec (rv s / rv t).
+Proof. exact mpf_div_round. Qed.
+Print Assumptions C02_div_round.
+
+Theorem C02_div_zero : forall s prec r, mpf_div s fzero prec r = Err ZDE.
+Proof. exact mpf_div_zero. Qed.
+
+(* mpf() construction from a rational p/q *)
+Theorem C02_from_rational_round : forall p q prec r, q <> 0 -> 0 < prec ->
+  exists y, from_rational p q prec r = Ok y /\ rv y = RND r prec (IZR p / IZR q).
+Proof. exact from_rational_round. Qed.
+
+(* square root of every positive value, all five modes (isqrt/sqrtrem specified as Z.sqrt/Z.sqrtrem) *)
+Theorem C02_sqrt_round : forall s prec r, regular s -> msign s = 0 -> 0 < prec ->
+  exists y, mpf_sqrt s prec r = Ok y /\ rv y = RND r prec (sqrt (rv s)).
+Proof. exact mpf_sqrt_round. Qed.
+Print Assumptions C02_sqrt_round.
 
 (* non-vacuity: 255 rounded to 4 bits to nearest is 256 (carry out of the top bit) *)
 Example C02_witness : normalize 0 255 0 (bitcount 255) 4 RN = Mpf 0 1 8 1.
